@@ -106,10 +106,10 @@ def run (op : String) (a : Json) : Option (Except String Json) :=
       let v ← getVal (a.getObjValD "val")
       let var ← getStr a "var"
       pure <| ok (jObj [
-        ("text", jStr (source W v var)),
+        ("text", match sourceE W v var with | .ok t => jStr t | .error e => jStr (cs!"RAISES:" ++ e.name)),
         ("outcome", jStr (outcome W v)),
         -- the hypotheses of Props.C18.code_rt_partial on this input
-        ("hyps", jObj [("wf", jBool (wf W v)), ("dom", jBool (domOK W v)), ("imports", jBool (importsOK W v))]),
+        ("hyps", jObj [("wf", jBool (wf W v)), ("dom", jBool (domOK W v)), ("renders", jBool (renders W v))]),
         ("imports", jList (fun p => Json.arr #[jStr p.1, jStr p.2]) (importsEnv W v))])
   | "c18.dq" => some do
       let s ← getStr a "s"
